@@ -206,3 +206,9 @@ package server
 //@ func PipelineReader.ReadMessages
 //@   nopanic
 //@   requires rd != nil
+
+// the pooled interpreters are never nil (pool invariant, assumed here; the pool itself is part of C18)
+//@ func lStatePool.Get
+//@   assumed
+//@   frame-by-effects
+//@   ensures result1 == nil ==> result0 != nil
